@@ -64,6 +64,10 @@ var annotKeys = []struct {
 	{"struct with interface field holding a slice", func() any { return ifaceKey{V: []int{1}} }, false},
 	{"struct with interface field holding an int", func() any { return ifaceKey{V: 3} }, true},
 	{"array of interfaces holding a map", func() any { return [1]any{map[int]int{}} }, false},
+	{"array of structs with an interface field holding a slice", func() any { return [1]ifaceKey{{V: []int{1}}} }, false},
+	{"array of structs with an interface field holding an int", func() any { return [1]ifaceKey{{V: 3}} }, true},
+	{"array of arrays of interfaces holding a map", func() any { return [2][1]any{{1}, {map[string]int{}}} }, false},
+	{"struct containing an array of structs with an interface field holding a func", func() any { return struct{ A [1]ifaceKey }{A: [1]ifaceKey{{V: func() {}}}} }, false},
 }
 
 var ptrKey = new(int)
